@@ -998,9 +998,16 @@ class TextXVisitor(RRELVisitor):
             cls_attr.ref = True
             # Override rhs by its PEG rule for further processing
             rhs_rule = rhs_rule[1]
-            # store RREL related information
-            cls_attr.scope_provider = rhs_rule.scope_provider
-            cls_attr.match_rule_name = rhs_rule.rule_name
+            # store RREL related information. An attribute may be assigned
+            # several times in its rule: an RREL expression given by any of
+            # the assignments is kept (a later assignment without RREL must
+            # not drop it).
+            if (
+                rhs_rule.scope_provider is not None
+                or getattr(cls_attr, "scope_provider", None) is None
+            ):
+                cls_attr.scope_provider = rhs_rule.scope_provider
+                cls_attr.match_rule_name = rhs_rule.rule_name
             # Target class is not the same as target rule
             target_cls = rhs_rule.cls
 
